@@ -264,7 +264,7 @@ fn run1d<T: Fl>(job: &Job, out: &mut JobOut) {
                 let i = bracket_scan(&xt, q);
                 let (v, _) = refs[j].eval_piece_ref(i, Fl::to_f64(q));
                 let t = ((Fl::to_f64(q) - axis.x[i]) / (axis.x[i + 1] - axis.x[i])).abs().max(1.0);
-                let tol = k * T::EPS * scales[j].max(v.to_f64().abs()) * t * t * t;
+                let tol = 16.0 * k * T::EPS * scales[j].max(v.to_f64().abs()) * t * t * t;
                 (v, tol)
             };
             probe1d(&ex, &no, &xt, &lanes, &key, &reference, out, &case);
@@ -493,7 +493,7 @@ fn body(ctx: &Ctx) -> (Summary, Meta) {
     let meta = Meta {
         rule: "for every (axis, strategy) pair build the extrapolating interpolator and its non-extrapolating twin: (i) every finite outside query {1,2 ulp, 2^-10 P, P/4, P, 3P, 100P on both sides, +-MAX} is answered through 6 call forms incl. 2-d and dynamic query arrays and *_into; (ii) in-range results are bit-identical to the twin; (iii) outside values equal the exact continuation of the end chord / the certified exact end cubic / the border cell's bilinear form (2-D: outside in x, in y, in both). Non-trivial = an outside query compared with the exact continuation.".into(),
         bounds: format!("{njobs} (type, axis/grid, strategy) jobs; Linear on value-set subsets + words + long words; CubicSpline on word axes n<=7 x 32 non-periodic boundary configurations; Bilinear on all ordered pairs of the 2-D axis set; tier {}", ctx.tier.name()),
-        assumptions: vec!["tolerances: Linear 8 eps max(|y1|,|y2|,|t||y2-y1|); spline K eps scale max(1,|t|)^3; bilinear 24 eps max|z| (1+|tx|)(1+|ty|)".into()],
+        assumptions: vec!["tolerances: Linear 8 eps max(|y1|,|y2|,|t||y2-y1|); spline 16 K eps scale max(1,|t|)^3 (see C16); bilinear 24 eps max|z| (1+|tx|)(1+|ty|)".into()],
         extra: vec![],
     };
     (sum, meta)
